@@ -29,6 +29,22 @@ def run(ctx):
 
     jobs.append(job("a", ["--leaf", "64", "--download", "--work", ctx.sub("dl")]))
     jobs.append(job("b", ["--leaf", "4096", "--crc"] if seed % 2 else ["--leaf", "96", "--crc", "--boundary"]))
+    # downloads into a destination that retries failed writes (what localfs.New and the CLI use by default): every
+    # such download of a damaged object takes the 30 s of the retry policy, so two (quick) / six (thorough) cases only
+    import json
+    picked, seen = [], set()
+    for ln in open(cases):
+        c = json.loads(ln)
+        if c.get("damaged") and not c.get("isroot") and c.get("kind") in ("flip", "truncate", "swap") \
+                and (c["kind"], len(c["content"]) > 3) not in seen:
+            seen.add((c["kind"], len(c["content"]) > 3))
+            picked.append(ln)
+    picked = picked[(seed % 2):][:6 if ctx.thorough else 2]
+    rcases = os.path.join(ctx.work, "corrupt_retry.ndjson")
+    open(rcases, "w").write("".join(picked))
+    if picked:
+        jobs.append(lambda: vlib.replay(ctx, "cafs-corrupt", rcases, "retrydest",
+                                        ["--leaf", "64", "--retry-dest", "--work", ctx.sub("dlr"), "--seed", str(seed)]))
     if ctx.thorough:
         jobs.append(job("all64", ["--leaf", "64", "--all-bytes"]))
         jobs.append(job("all65", ["--leaf", "65", "--all-bytes", "--boundary", "--crc"]))
@@ -42,7 +58,10 @@ def run(ctx):
                           "exhaustively by TLC; each case expands into byte-level variants (first/last byte of the cell, "
                           "every byte in the thorough tier); non-trivial = the damage changes the stored bytes; every case "
                           "is observed through Read (2 buffer sizes), ReadAll, WriteTo(io.Writer), WriteTo(io.WriterAt), "
-                          "ReadAt(whole), the ranged ReadAt table and a full bundle download (core.Publish) at concurrency 1 and 4")
+                          "ReadAt(whole), the ranged ReadAt table, a second ReadAt of the damaged leaf by a reader instance that fetched it "
+                          "before the damage and has a one-leaf cache (error or the original bytes), a full bundle download "
+                          "(core.Publish) at concurrency 1 and 4, and for a few cases a download into a destination store that "
+                          "retries failed writes")
     return vlib.finish(ctx, "model_checking", {}, [
         "damage happens at rest: reads use a fresh cafs instance (no cached leaf keys of the undamaged root)",
         "a ranged read that touches no damaged leaf may succeed or fail; every other read of a damaged object must fail",
